@@ -7,6 +7,7 @@ C10; SciPy underneath) and `scipy.signal.place_poles` are *parameters* with reco
 (`CareSpec`, `DareSpec`, `EigSpec`), never axioms.
 -/
 import CtrlVerif.Lemmas.StateFbk
+import CtrlVerif.Lemmas.Index
 import CtrlVerif.Model.StateFbkDyn
 import Mathlib.LinearAlgebra.Matrix.Charpoly.Eigs
 import Mathlib.Algebra.Polynomial.Roots
@@ -465,6 +466,249 @@ theorem statefbk_closed_loop_eigs (ric : Riccati (n ⊕ q) m ε K)
 
 end Ctrl
 
+/-! ## `create_statefbk_iosystem` with `control_indices` (the controller drives a selection of the
+plant inputs, in the order given) -/
+
+section Wire
+variable {l mt m : Type*} [Fintype mt] [DecidableEq mt]
+
+/-- wiring by name picks the columns `B[:, control_indices]`, in the order of `control_indices`. -/
+theorem mul_wire (B : Matrix l mt K) (sel : m → mt) :
+    B * wire sel = B.submatrix id sel := by
+  ext i j
+  simp [wire, Matrix.mul_apply]
+
+/-- the default selector (all inputs, in order) connects output `j` to input `j`. -/
+theorem wire_id : wire (K := K) (id : mt → mt) = 1 := by
+  ext i j
+  simp [wire, Matrix.one_apply, eq_comm]
+
+end Wire
+
+section Sel
+variable {n mt m r q ε : Type*} [Fintype n] [DecidableEq n] [Fintype mt] [DecidableEq mt]
+  [Fintype m] [DecidableEq m] [Fintype q] [DecidableEq q]
+
+/-- with the default selector the loop is the plain closed loop. -/
+theorem closed_loop_sel_default {o : Type*} [Fintype o] (A : Matrix n n K) (B : Matrix n m K)
+    (Cp : Matrix o n K) (rest : r → m) (c : SS q ((n ⊕ m) ⊕ o) m K) :
+    (closedLoopSel A B Cp id rest c).A = (closedLoop A B Cp c).A ∧
+      (closedLoopSel A B Cp id rest c).C = (closedLoop A B Cp c).C ∧
+      (closedLoopSel A B Cp id rest c).B.submatrix id Sum.inl = (closedLoop A B Cp c).B ∧
+      (closedLoopSel A B Cp id rest c).D.submatrix id Sum.inl = (closedLoop A B Cp c).D := by
+  simp only [closedLoopSel, wire_id, Matrix.mul_one]
+  refine ⟨trivial, trivial, ?_, ?_⟩ <;> ext i j <;> simp
+
+/-- **closed-loop matrix with `control_indices`.**  The A-matrix of the closed loop is
+`A_aug - B_aug[:, control_indices] K`: row `j` of the gain acts through plant input
+`control_indices[j]`, i.e. the loop is the one a design for `B[:, control_indices]` (columns in
+the given order) assumes. -/
+theorem closed_loop_sel_matrix (ct : Bool) (A : Matrix n n K) (B : Matrix n mt K)
+    (C : Matrix q n K) (sel : m → mt) (rest : r → mt) (Kg : Matrix m (n ⊕ q) K) :
+    (closedLoopSel A B (1 : Matrix n n K) sel rest (ctrl ct C Kg)).A
+      = augA A C (if ct then 0 else 1) - augB (B.submatrix id sel) * Kg := by
+  simp only [closedLoopSel, mul_wire]
+  exact closed_loop_matrix ct A (B.submatrix id sel) C Kg
+
+theorem closed_loop_sel_charpoly (ct : Bool) (A : Matrix n n K) (B : Matrix n mt K)
+    (C : Matrix q n K) (sel : m → mt) (rest : r → mt) (Kg : Matrix m (n ⊕ q) K) :
+    (closedLoopSel A B (1 : Matrix n n K) sel rest (ctrl ct C Kg)).A.charpoly
+      = (augA A C (if ct then 0 else 1) - augB (B.submatrix id sel) * Kg).charpoly := by
+  rw [closed_loop_sel_matrix]
+
+/-- **returned eigenvalues, with `control_indices`.**  If `lqr`/`dlqr` (with integral action) was
+run on `(A, B[:, control_indices])` and returned `(K, S, E)`, then `E` is `eig` of the closed loop
+that `create_statefbk_iosystem(sys, K, control_indices=…)` assembles on the full plant. -/
+theorem statefbk_sel_closed_loop_eigs (ric : Riccati (n ⊕ q) m ε K)
+    (eigs : Matrix (n ⊕ q) (n ⊕ q) K → ε) (he : EigSpec ric eigs) (ct : Bool)
+    (A : Matrix n n K) (B : Matrix n mt K) (C : Matrix q n K) (sel : m → mt) (rest : r → mt)
+    (Q : Matrix (n ⊕ q) (n ⊕ q) K) (R : Matrix m m K) (Nc : Option (Matrix (n ⊕ q) m K))
+    (Kg : Matrix m (n ⊕ q) K) (S : Matrix (n ⊕ q) (n ⊕ q) K) (E : ε)
+    (h : lqrInt ric A (B.submatrix id sel) C (if ct then 0 else 1) Q R Nc = .ok (Kg, S, E)) :
+    E = eigs (closedLoopSel A B (1 : Matrix n n K) sel rest (ctrl ct C Kg)).A := by
+  simp only [closedLoopSel, mul_wire]
+  exact statefbk_closed_loop_eigs ric eigs he ct A (B.submatrix id sel) C Q R Nc Kg S E h
+
+/-- listing the controlled inputs in another order together with the rows of the gain in that
+order gives the same loop: only the pairing (row of `K`, plant input) matters. -/
+theorem closed_loop_sel_perm (ct : Bool) (A : Matrix n n K) (B : Matrix n mt K)
+    (C : Matrix q n K) (sel : m → mt) (rest : r → mt) (Kg : Matrix m (n ⊕ q) K) (σ : m ≃ m) :
+    (closedLoopSel A B (1 : Matrix n n K) (sel ∘ σ) rest (ctrl ct C (Kg.submatrix σ id))).A
+      = (closedLoopSel A B (1 : Matrix n n K) sel rest (ctrl ct C Kg)).A := by
+  rw [closed_loop_sel_matrix, closed_loop_sel_matrix]
+  congr 1
+  have : augB (q := q) (B.submatrix id (sel ∘ σ)) = (augB (B.submatrix id sel)).submatrix id σ := by
+    ext (i | i) j <;> simp [augB]
+  rw [this, Matrix.submatrix_mul_equiv, Matrix.submatrix_id_id]
+
+/-- the plant inputs the controller does not drive stay inputs of the closed loop: input `j` of
+that group enters the plant states through column `rest j` of `B`, does not enter the integrators
+and has no direct path to the outputs. -/
+theorem closed_loop_sel_unused {o : Type*} [Fintype o] (A : Matrix n n K) (B : Matrix n mt K)
+    (Cp : Matrix o n K) (sel : m → mt) (rest : r → mt) (c : SS q ((n ⊕ m) ⊕ o) m K) :
+    (closedLoopSel A B Cp sel rest c).B.submatrix id Sum.inr
+        = fromRows (B.submatrix id rest) 0 ∧
+      (closedLoopSel A B Cp sel rest c).D.submatrix id Sum.inr = 0 := by
+  constructor
+  · ext (i | i) j <;> simp [closedLoopSel, mul_wire]
+  · ext i j
+    simp [closedLoopSel]
+
+end Sel
+
+/-! ### run-time layer: `_process_indices`, the names of the controller outputs -/
+
+section SelDyn
+open CtrlVerif.Index
+
+/-- no `control_indices`: all plant inputs, in order. -/
+theorem processIndices_default {len : Nat} (labels : Fin len → String) :
+    processIndices labels none = .ok ((List.range len).map Int.ofNat) := rfl
+
+/-- a list of integers that is not longer than the number of plant inputs is taken as given:
+the same entries in the same order (no sorting, no de-duplication). -/
+theorem processIndices_int_list {len : Nat} (labels : Fin len → String) (l : List Int)
+    (h : l.length ≤ len) :
+    processIndices labels (some (.list (l.map Item.idx))) = .ok l := by
+  have hm : (l.map Item.idx).mapM (parseItem labels) = .ok l := by
+    have := mapM_ok_of_forall (parseItem labels)
+      (fun it => match it with | .idx i => i | .name _ => 0) (l.map Item.idx) (by
+        intro a ha
+        obtain ⟨i, _, rfl⟩ := List.mem_map.mp ha
+        rfl)
+    rw [this]
+    simp [Function.comp_def]
+  have hl : ¬ len < (l.map Item.idx).length := by simp; omega
+  simp only [processIndices, hl, if_false, hm]
+
+/-- a list longer than the number of plant inputs raises. -/
+theorem processIndices_too_long {len : Nat} (labels : Fin len → String) (l : List Item)
+    (h : len < l.length) : processIndices labels (some (.list l)) = .error .badArg := by
+  simp [processIndices, h]
+
+/-- a positive integer `k` selects the first `k` inputs, a slice what the slice selects. -/
+theorem processIndices_int_slice {len : Nat} (labels : Fin len → String) :
+    (∀ k : Int, 0 < k →
+      processIndices labels (some (.idx k)) = .ok ((List.range k.toNat).map Int.ofNat)) ∧
+    (∀ a b c, processIndices labels (some (.slice a b c))
+      = (sliceList a b c len).map fun l => l.map fun i => (i.val : Int)) := by
+  refine ⟨fun k hk => ?_, fun a b c => rfl⟩
+  simp [processIndices, hk]
+
+/-- **order and pairing are kept.**  When the names of the controller outputs can be formed,
+output `k` of the controller is plant input `control_indices[k]` (negative entries counted from
+the end), and no plant input is named twice. -/
+theorem selChannels_spec {mt : Nat} (l : List Int) (s : List (Fin mt))
+    (h : selChannels mt l = .ok s) :
+    s.Nodup ∧ s.length = l.length ∧
+      ∀ (k : Nat) (h1 : k < l.length) (h2 : k < s.length), normIdx mt l[k] = .ok s[k] := by
+  unfold selChannels at h
+  cases hm : l.mapM (normIdx mt) with
+  | error e => simp [hm, bind, Except.bind] at h
+  | ok s' =>
+    simp only [hm, bind, Except.bind] at h
+    split_ifs at h with hn
+    · cases h
+      obtain ⟨hlen, hk⟩ := mapM_ok_inv _ _ _ hm
+      exact ⟨hn, hlen, hk⟩
+
+/-- an entry outside `-mt … mt-1` raises (`IndexError`). -/
+theorem selChannels_out_of_range {mt : Nat} (l : List Int)
+    (h : ∃ i ∈ l, i < -(mt : Int) ∨ (mt : Int) ≤ i) :
+    selChannels mt l = .error .indexRange := by
+  have : l.mapM (normIdx mt) = .error .indexRange := by
+    apply mapM_error_of_exists
+    · intro a _ e he
+      exact normIdx_error_kind he
+    · obtain ⟨i, hi, hr⟩ := h
+      exact ⟨i, hi, _, normIdx_err hr⟩
+  simp [selChannels, this, bind, Except.bind]
+
+/-- the free inputs are exactly the plant inputs that are not driven, each once. -/
+theorem restChannels_spec {mt : Nat} (s : List (Fin mt)) :
+    (restChannels mt s).Nodup ∧ ∀ i, i ∈ restChannels mt s ↔ i ∉ s := by
+  refine ⟨(List.nodup_finRange mt).filter _, fun i => ?_⟩
+  simp [restChannels]
+
+example : processIndices (len := 3) (fun _ => "") (some (.list [.idx 2, .idx 0])) = .ok [2, 0] := by
+  decide
+example : processIndices (len := 3) ![("b" : String), "a", "thr"] (some (.list [.name "thr", .idx (-3)]))
+    = .ok [2, -3] := by decide
+example : processIndices (len := 3) (fun _ => "") (some (.idx (-2))) = .ok [1, 2] := by decide
+example : processIndices (len := 3) (fun _ => "") (some (.idx 4)) = .ok [0, 1, 2, 3] := by decide
+example : processIndices (len := 3) (fun _ => "") (some (.slice none none (some (-1)))) = .ok [2, 1, 0] := by
+  decide
+example : selChannels 3 [2, 0] = .ok [2, 0] := by decide
+example : selChannels 3 [2, -3] = .ok [2, 0] := by decide
+example : selChannels 3 [-1, 2] = .error .badArg := by decide
+example : selChannels 3 [0, 1, 2, 3] = .error .indexRange :=
+  selChannels_out_of_range _ ⟨3, by decide, by decide⟩
+example : restChannels 3 [2, 0] = [1] := by decide
+
+end SelDyn
+
+section SelE2E
+open CtrlVerif.Index
+variable {F : Type} [Field F] [DecidableEq F]
+
+theorem fbkSelBuild_ok (dt : Dt) (n mt : Nat) (A : Matrix (Fin n) (Fin n) F)
+    (B : Matrix (Fin n) (Fin mt) F) (Cp : Matrix (Fin n) (Fin n) F) (Kg Cint : DM F)
+    (s : List (Fin mt)) (R : FbkSel F n mt) (h : fbkSelBuild dt n mt A B Cp Kg Cint s = .ok R) :
+    R.sel = s ∧ R.rest = restChannels mt R.sel ∧
+      R.cl = closedLoopSel A B Cp R.sel.get R.rest.get R.ctrl := by
+  unfold fbkSelBuild at h
+  split_ifs at h with hc
+  simp only [Except.ok.injEq] at h
+  subst h
+  exact ⟨rfl, rfl, rfl⟩
+
+/-- **what the run-time layer returns.**  When `create_statefbk_iosystem(sys, K, integral_action,
+control_indices)` returns, the driven inputs are `_process_indices` followed by the name lookup, the
+gain has one row per selected input, the free inputs are the remaining ones, and the closed loop is
+`closedLoopSel` of the returned controller for exactly these two lists (the object the theorems
+`closed_loop_sel_*` are about). -/
+theorem fbkSelDyn_ok (dt : Dt) (n mt : Nat) (A : Matrix (Fin n) (Fin n) F)
+    (B : Matrix (Fin n) (Fin mt) F) (Cp : Matrix (Fin n) (Fin n) F) (labels : Fin mt → String)
+    (ci : Option Sel) (Kg : DM F) (Ci : Option (DM F)) (R : FbkSel F n mt)
+    (h : fbkSelDyn dt n mt A B Cp labels ci Kg Ci = .ok R) :
+    (∃ raw, processIndices labels ci = .ok raw ∧ selChannels mt raw = .ok R.sel ∧
+        Kg.r = raw.length) ∧
+      R.rest = restChannels mt R.sel ∧
+      R.cl = closedLoopSel A B Cp R.sel.get R.rest.get R.ctrl := by
+  unfold fbkSelDyn at h
+  cases hp : processIndices labels ci with
+  | error e => simp [hp, bind, Except.bind] at h
+  | ok raw =>
+    cases hi : intAction n Ci with
+    | error e => simp [hp, hi, bind, Except.bind] at h
+    | ok Cint =>
+      simp only [hp, hi, bind, Except.bind] at h
+      split_ifs at h with hK
+      cases hs : selChannels mt raw with
+      | error e => simp [hs] at h
+      | ok s =>
+        simp only [hs] at h
+        obtain ⟨h1, h2, h3⟩ := fbkSelBuild_ok _ _ _ _ _ _ _ _ _ _ h
+        exact ⟨⟨raw, rfl, h1 ▸ hs, hK.1⟩, h2, h3⟩
+
+/-- a selector that names a plant input twice, or an input that does not exist, raises. -/
+theorem fbkSelDyn_bad_selector (dt : Dt) (n mt : Nat) (A : Matrix (Fin n) (Fin n) F)
+    (B : Matrix (Fin n) (Fin mt) F) (Cp : Matrix (Fin n) (Fin n) F) (labels : Fin mt → String)
+    (ci : Option Sel) (Kg : DM F) (Ci : Option (DM F)) (raw : List Int) (e : Err)
+    (hp : processIndices labels ci = .ok raw) (hs : selChannels mt raw = .error e) :
+    ∃ e', fbkSelDyn dt n mt A B Cp labels ci Kg Ci = .error e' := by
+  unfold fbkSelDyn
+  cases hi : intAction n Ci with
+  | error e => exact ⟨e, by simp [hp, bind, Except.bind]⟩
+  | ok Cint =>
+    simp only [hp, bind, Except.bind]
+    split_ifs
+    · exact ⟨e, by simp [hs]⟩
+    · exact ⟨_, rfl⟩
+
+end SelE2E
+
+
 /-! ## non-vacuity: concrete instances meeting the hypotheses -/
 
 section Examples
@@ -512,4 +756,29 @@ example : route .dlqr (some .cont) = .error .badArg := ((dispatch_dlqr _).1 (by 
 
 end Examples
 
+/-! non-vacuity: the order of `control_indices` is significant -/
+section SelExamples
+
+def exA2 : Matrix (Fin 2) (Fin 2) ℚ := !![0, 1; 0, 0]
+def exB2 : Matrix (Fin 2) (Fin 2) ℚ := !![1, 0; 0, 1]
+def exK2 : Matrix (Fin 2) (Fin 2 ⊕ Fin 0) ℚ := Matrix.of fun i j =>
+  match j with | .inl j => !![1, 2; 3, 4] i j | .inr j => j.elim0
+def exC0 : Matrix (Fin 0) (Fin 2) ℚ := 0
+
+/-- the same gain with `control_indices = [1, 0]` and `[0, 1]` gives different closed loops … -/
+example : (closedLoopSel exA2 exB2 1 ![1, 0] Fin.elim0 (ctrl true exC0 exK2)).A
+    ≠ (closedLoopSel exA2 exB2 1 ![0, 1] Fin.elim0 (ctrl true exC0 exK2)).A := by
+  intro h
+  have := congrFun (congrFun h (.inl 0)) (.inl 0)
+  revert this
+  simp only [closed_loop_sel_matrix]
+  decide +kernel
+
+/-- … and with the rows of the gain swapped as well, the same one. -/
+example : (closedLoopSel exA2 exB2 1 (![0, 1] ∘ Equiv.swap 0 1) Fin.elim0
+      (ctrl true exC0 (exK2.submatrix (Equiv.swap 0 1) id))).A
+    = (closedLoopSel exA2 exB2 1 ![0, 1] Fin.elim0 (ctrl true exC0 exK2)).A :=
+  closed_loop_sel_perm true exA2 exB2 exC0 ![0, 1] Fin.elim0 exK2 (Equiv.swap 0 1)
+
+end SelExamples
 end CtrlVerif.C11
